@@ -98,6 +98,12 @@ def cases(ctx):
         for number in (1, 2, 3):
             if mine():
                 yield {"kind": "request", "type": tp, "number": number, "socket": 0, "remote": "bob", "number_from_host": True}
+    # a request the SDK refuses (more pairs than the node has qubits, wrapped in the retry loop of a fidelity bound) between two
+    # requests it accepts, all in one subroutine: both accepted requests reach the stack
+    for n1 in (1, 2):
+        for refused in ("keep-min-fidelity",):
+            if mine():
+                yield {"kind": "refused-between", "first": n1, "refused": refused}
     # a repeater node: one local socket id towards two remote nodes, on a network stack whose purpose ids are per (remote, socket)
     for sid in (0, 1, 3):
         for order in (["bob", "charlie"], ["charlie", "bob"], ["bob", "charlie", "bob"]):
@@ -396,6 +402,8 @@ def run_case(ctx, case):
         return _early(ctx, case)
     if case["kind"] == "requests":
         return _requests(ctx, case)
+    if case["kind"] == "refused-between":
+        return _refused_between(ctx, case)
     if case["kind"] == "repeater":
         return _repeater(ctx, case)
     if case["kind"] == "both-given":
@@ -407,6 +415,39 @@ def run_case(ctx, case):
 
 
 NODE_IDS = {"alice": 0, "bob": 1, "charlie": 2}
+
+
+def _refused_between(ctx, case):
+    from netqasm.sdk.epr_socket import EPRSocket
+    from netqasm.sdk.futures import Future
+    es = EPRSocket("bob", epr_socket_id=0, remote_epr_socket_id=0)
+    n1 = case["first"]
+    plan = [PlannedRequest("create", "M", n1, remote=NODE_IDS["bob"], socket=0), PlannedRequest("create", "M", 1, remote=NODE_IDS["bob"], socket=0)]
+    pipe = Pipe(epr_sockets=[es], link=LinkModel(plan, partners=False), max_qubits=5)
+    try:
+        with pipe.conn as conn:
+            es.create_measure(n1, max_time=9)
+            try:
+                if case["refused"] == "keep-min-fidelity":
+                    es.create_keep(number=7, min_fidelity_all_at_end=80, max_tries=3)
+                else:
+                    unknown = Future(conn, address=0, index=0)       # a value the host does not have yet
+                    with conn.loop(unknown):
+                        pass
+                ctx.count("refusal_expected_but_accepted")
+                return ctx.case(case, False)
+            except Exception:
+                ctx.count("requests_refused_between_accepted_ones")
+            es.create_measure(1)
+            conn.flush()
+    except (hc.ControllerFault, hc.Deadlock, hc.StepLimit) as e:
+        ctx.fail(case, f"create_measure({n1}); a refused operation ({case['refused']}); create_measure(1); flush: controller run failed: {str(e)[:200]}")
+        return ctx.case(case, True)
+    got = [(p.number, p.max_time) for p in pipe.stack.puts]
+    if got != [(n1, 9), (1, 0)]:
+        ctx.fail(case, f"create_measure({n1}, max_time=9); a refused operation ({case['refused']}); create_measure(1); flush: the network stack "
+                       f"received (number, max_time) {got} - both accepted requests were to arrive, in order")
+    ctx.case(case, True)
 
 
 def _repeater(ctx, case):
